@@ -21,3 +21,7 @@ cls(P + "StreamClosed", fields={"stream_id": "int"})
 
 STREAM_EVENTS = " | ".join("obj " + P + n for n in ("Request", "Body", "EndBody", "Trailers", "Data", "EndData", "Response", "InformationalResponse", "StreamClosed"))
 IO_EVENTS = " | ".join("obj " + E + n for n in ("RawData", "Closed", "Updated"))
+
+W = "wsproto.events:"
+cls(W + "TextMessage", fields={"data": "text", "frame_finished": "bool", "message_finished": "bool"})
+cls(W + "BytesMessage", fields={"data": "bytes", "frame_finished": "bool", "message_finished": "bool"})
